@@ -238,6 +238,12 @@ def cases_for(op, seed):
         # oracle: the unoptimised run of the same program (property C02)
         rnd = random.Random(seed + 11)
         N = ("N",)
+        H2 = ("H", 2)
+        # counting loops (no output inside the loop) that run below / above the optimiser's 100-jump budget
+        for rounds in (5, 50, 99, 100, 101, 120, 150):
+            cmds = [(0, 1, rounds, N), (1, 1, 3, H2), (3, 1, 4, N), (0, 1, 1, N), (1, 2, 3, N), (3, 1, 3, ("Q", N, H2)), (1, 1, 1, N)]
+            prog = ";".join("%d,%d,%d,%s" % (ty, h, d, " ".join(tree_tokens(t))) for ty, h, d, t in cmds)
+            yield ("opt.cmp\t%s" % prog, ("selfeq",), {"op": "run unoptimised vs optimised level 2", "commands(type,syllables,dots,area)": prog})
         for _ in range(300):
             n = rnd.randint(2, 7)
             cmds = []
@@ -289,6 +295,11 @@ def cases_for(op, seed):
                     yield ("big.roundtrip\t%s\t%d" % (enc_big(n), b), e + " true", {"op": "to_string_base then from_string_base", "n": n, "base": b})
                 else:
                     yield ("big.to_base\t%s\t%d" % (enc_big(n), b), e, {"op": "to_string_base", "n": n, "base": b})
+        return
+    if op == "big.from_string":
+        for n in [0, 7, -7, 10 ** 18, 1111111111111111110, 2 ** 63 - 1, 2 ** 63, 2 ** 63 + 1, 9999999999999999999, -(2 ** 63), -(2 ** 63) - 1,
+                  10 ** 19, 2 ** 64, 2 ** 70 + 3, -(10 ** 25)]:
+            yield ("big.from_string\t%d" % n, str(n), {"op": "BigNum::from_string", "text": str(n)})
         return
     if op == "big.from_base":
         vals = [0, 1, 9, 10, 35, 36, 71, -35, 1295, 2 ** 32, -(2 ** 70) - 11, 36 ** 9 - 1]
@@ -385,9 +396,9 @@ def cases_for(op, seed):
             yield ("%s\t%s" % (op, enc_num(a)), e, {"op": op, "a": show_num(a)})
         return
     for a, b in itertools.product(fs, fs):
-        if name == "add":
+        if name in ("add", "add_assign"):
             e = show_num(None if (a is None or b is None) else a + b)
-        elif name == "mul":
+        elif name in ("mul", "mul_assign"):
             e = show_num(None if (a is None or b is None) else a * b)
         elif name == "eq":
             e = "true" if (a == b) else "false"
@@ -425,7 +436,7 @@ OPS = {
     "Num::minus": ["num.minus"], "Num::flip": ["num.flip"], "Num::add": ["num.add"], "Num::mul": ["num.mul"],
     "Num::neg": ["num.neg"], "Num::set_copy": ["num.add"], "Num::set_move": ["num.add"],
     "op_add_Num": ["num.add"], "op_mul_Num": ["num.mul"], "op_neg_Num": ["num.neg"],
-    "op_add_assign_Num": ["num.add"], "op_mul_assign_Num": ["num.mul"],
+    "op_add_assign_Num": ["num.add_assign", "num.add"], "op_mul_assign_Num": ["num.mul_assign", "num.mul"],
     "num_partial_cmp": ["num.cmp"],
     "PartialOrd_for_Num::partial_cmp": ["num.cmp"], "PartialEq_for_Num::eq": ["num.eq"],
     "calc": ["area.calc"], "Area::new": ["area.calc"],
@@ -434,16 +445,16 @@ OPS = {
     "pop_stack_wrap": ["exec.steps"], "State::push_stack": ["exec.steps"], "State::pop_stack": ["exec.steps"],
     "trait_State::push_stack": ["exec.steps"], "trait_State::pop_stack": ["exec.steps"], "ext_num_to_unicode": [],
     "BigNum::to_string_base": ["big.to_base", "big.roundtrip"], "BigNum::from_string_base": ["big.from_base", "big.roundtrip"],
-    "BigNum::from_string": ["big.from_base"], "Num::from_string": ["num.roundtrip"],
+    "BigNum::from_string": ["big.from_string", "big.from_base"], "Num::from_string": ["num.roundtrip"],
 }
 
 PROP_OPS = {
     "C05": ["big.new", "big.add", "big.sub", "big.mul", "big.div", "big.rem", "big.neg", "big.eq", "big.cmp", "big.gcd",
             "big.add_assign", "big.sub_assign", "big.mul_assign", "big.div_assign", "big.rem_assign"],
-    "C06": ["num.new", "num.show", "num.add", "num.mul", "num.neg", "num.minus", "num.flip", "num.floor", "num.is_pos",
+    "C06": ["num.new", "num.show", "num.add", "num.mul", "num.add_assign", "num.mul_assign", "num.neg", "num.minus", "num.flip", "num.floor", "num.is_pos",
             "num.is_nan", "num.eq"],
     "C07": ["num.cmp", "area.calc", "big.eq", "big.cmp"],
-    "C09": ["big.roundtrip", "big.to_base", "big.from_base", "num.roundtrip"],
+    "C09": ["big.roundtrip", "big.to_base", "big.from_base", "big.from_string", "num.roundtrip"],
     "C01": ["exec.steps", "area.calc", "num.cmp"],
     "C02": ["opt.cmp"], "C10": [], "C14": ["exec.steps"],
 }
